@@ -268,14 +268,17 @@ impl AdvancedRangeCoalescer {
 
                     // Coalesce if gap is within threshold and total size is reasonable
                     if gap <= dynamic_threshold {
-                        let new_end = range.end;
-                        let _old_size = current.length() + range.length();
-                        current.end = new_end;
-                        let new_size = current.length();
+                        // The running range only grows: a range nested in it must not shrink it
+                        let merged = HttpRange {
+                            start: current.start,
+                            end: current.end.max(range.end),
+                        };
 
                         // Only coalesce if it doesn't exceed max range size
-                        if new_size <= self.config.max_range_size {
+                        // (the running range is left untouched otherwise)
+                        if merged.length() <= self.config.max_range_size {
                             bytes_saved += gap;
+                            current = merged;
                             current_range = Some(current);
                             continue;
                         }
